@@ -117,8 +117,7 @@ func waitWatchdog(wg *sync.WaitGroup, d time.Duration) (done bool, stuckInCache 
 // runC10Race executes one race-mode case and checks invariants.
 func runC10Race(c *C10Case) (string, c10Facts) {
 	facts := c10Facts{goroutines: len(c.Streams)}
-	old := runtime.GOMAXPROCS(c.Procs)
-	defer runtime.GOMAXPROCS(old)
+	setProcs(c.Procs)
 	cache := valid.NewLRU(c.Cap)
 	var cbLog []model.KV // appended inside the callback, i.e. under the cache's own lock
 	if c.Callback {
@@ -413,8 +412,7 @@ func linModel(capacity int) porcupine.Model {
 
 // runC10Lin executes the case once and returns the recorded history.
 func runC10Lin(c *C10Case) ([]porcupine.Operation, string) {
-	old := runtime.GOMAXPROCS(c.Procs)
-	defer runtime.GOMAXPROCS(old)
+	setProcs(c.Procs)
 	cache := valid.NewLRU(c.Cap)
 	if c.Callback {
 		cache.SetDelCallBackFn(func(k, v interface{}) {})
